@@ -72,6 +72,35 @@ func (eng *Engine) verifyContract(ct *Contract) (res *FuncResult) {
 	for _, ob := range ct.Olds {
 		olds = append(olds, vc.evalClauseVal(ob.Clause, args, st, nil))
 	}
+	vc.rootOlds = olds
+	switch {
+	case ct.AllocBound > 0:
+		vc.allocTerm = bvConst(uint64(ct.AllocBound), 64)
+	case ct.AllocExpr != nil:
+		vc.allocTerm = vc.evalClauseVal(ct.AllocExpr, args, st, nil).S
+	case ct.AllocBuf:
+		// bytes unread in the first *bytes.Buffer parameter on entry
+		for i, p := range fn.Params {
+			if pt, ok := p.Type().Underlying().(*types.Pointer); ok && typeKey(pt.Elem()) == "bytes.Buffer" {
+				T := eng.bufferType()
+				stt := T.Underlying().(*types.Struct)
+				var bf, of string
+				for k := 0; k < stt.NumFields(); k++ {
+					switch stt.Field(k).Name() {
+					case "buf":
+						bf = vc.readCell(st, vc.fieldKey(T, k), args[i].S)
+					case "off":
+						of = vc.readCell(st, vc.fieldKey(T, k), args[i].S)
+					}
+				}
+				vc.allocTerm = vc.def(bvSort(64), "allocbound", app("bvsub", app("g_slen", bf), of))
+				break
+			}
+		}
+		if vc.allocTerm == "" {
+			vc.note("no *bytes.Buffer parameter: allocations of " + vc.rootKey + " are not bounded by this check")
+		}
+	}
 	vc.frame.next0 = st.next
 	if ct.ModNothing || len(ct.Modifies) > 0 {
 		vc.frame.active = true
@@ -83,11 +112,34 @@ func (eng *Engine) verifyContract(ct *Contract) (res *FuncResult) {
 	entry := st.clone()
 	results, out, retReach := vc.execFunc(fn, args, st, "true", nil, false, ct)
 	_ = entry
+	_ = results
+	_ = out
 	if retReach != "false" {
-		post := append(append(append([]Val{}, args...), results...), olds...)
 		for k, cl := range ct.Ensures {
-			g := vc.evalClause(cl, post, out, nil)
-			o := vc.addObl("post", vc.rootKey, fmt.Sprintf("post:%s:%d", vc.rootKey, k), retReach, g, fn.Pos())
+			if len(cl.Props) > 0 && eng.curProp != "" && eng.curProp != "all" {
+				found := false
+				for _, p := range cl.Props {
+					if p == eng.curProp {
+						found = true
+					}
+				}
+				if !found {
+					continue // this clause is an obligation of other properties only
+				}
+			}
+			// the clause is evaluated at every return site in that site's own
+			// (unmerged) state; the obligation is the conjunction
+			var parts []string
+			for _, r := range vc.rootRets {
+				if r.cond == "false" {
+					continue
+				}
+				post := append(append(append([]Val{}, args...), r.vals...), olds...)
+				g := vc.evalClause(cl, post, r.st, nil)
+				parts = append(parts, sImp(r.cond, g))
+			}
+			g := vc.def("Bool", "post", sAnd(parts...))
+			o := vc.addObl("post", vc.rootKey, fmt.Sprintf("post:%s:%d", vc.rootKey, k), "true", g, fn.Pos())
 			o.Clause = cl.Text
 			o.ClauseFn = cl.FnName
 		}
